@@ -44,6 +44,9 @@ def run_jobs(jobs, nproc=None, slice_s=20.0, total_budget_s=3600, verbose=False)
     t0 = time.time()
     ctxm = mp.get_context('fork')
     timed_out = set()
+    hard_stop = False
+    outstanding = {i: 1 for i in range(len(jobs))}   # tasks in flight per job
+    finished = {}
     with ctxm.Pool(nproc, maxtasksperchild=50) as pool:
         pending = []
         for i in range(len(jobs)):
@@ -57,6 +60,7 @@ def run_jobs(jobs, nproc=None, slice_s=20.0, total_budget_s=3600, verbose=False)
                     continue
                 progressed = True
                 idx, res = p.get()
+                outstanding[idx] -= 1
                 left = res.leftover
                 res.leftover = []
                 requeue = False
@@ -73,9 +77,24 @@ def run_jobs(jobs, nproc=None, slice_s=20.0, total_budget_s=3600, verbose=False)
                     chunks = [left[k::nchunks] for k in range(nchunks)]
                     for ch in chunks:
                         nxt.append(pool.apply_async(_work, ((idx, ch, slice_s),)))
+                        outstanding[idx] += 1
+                if outstanding[idx] == 0:
+                    finished[idx] = True
             pending = nxt
+            if pending and time.time() - t0 > total_budget_s + 30:
+                # hard stop: the budget is binding
+                pool.terminate()
+                for i in range(len(jobs)):
+                    if not results[i].paths or any(True for p in pending):
+                        pass
+                timed_out.update(range(len(jobs)))
+                hard_stop = True
+                break
             if not progressed:
                 time.sleep(0.05)
+    if hard_stop:
+        # only jobs that still had work outstanding are incomplete
+        timed_out = set(i for i in timed_out if not finished.get(i))
     for idx in timed_out:
         results[idx].complete = False
         results[idx].errors.append("job timed out with unexplored paths")
@@ -115,7 +134,8 @@ def match_known(v, known):
         if when:
             try:
                 import numpy as np
-                ok = eval(when, {'np': np, 'inputs': H.from_json(v['inputs']), 'len': len, 'set': set, 'any': any, 'all': all,
+                import props.kf_helpers as kf
+                ok = eval(when, {'np': np, 'kf': kf, 'inputs': H.from_json(v['inputs']), 'len': len, 'set': set, 'any': any, 'all': all,
                                  'abs': abs, 'min': min, 'max': max, 'sorted': sorted, 'float': float, 'sum': sum, 'range': range, 'tuple': tuple, 'list': list, 'zip': zip, 'int': int})
             except Exception:
                 ok = False
@@ -136,7 +156,7 @@ def check_property(pid, tier, jobs, seed=0, meta=None, verbose=False, budget_s=N
     # long jobs first (stable heuristics: declared timeout), ties shuffled by seed
     rnd.shuffle(order)
     jobs = [jobs[i] for i in sorted(order, key=lambda i: -jobs[i].timeout_s)]
-    results = run_jobs(jobs, verbose=verbose, total_budget_s=budget_s or (600 if tier == 'quick' else 7200))
+    results = run_jobs(jobs, verbose=verbose, total_budget_s=budget_s or float(os.environ.get('VERIF_BUDGET', 0) or (420 if tier == 'quick' else 3600)))
     known = load_known()
     violations, known_hits, inconclusive = [], [], []
     tot = dict(paths=0, forks=0, checks=0, solver_s=0.0, obligations=0, discharged=0, sat=0, unknown=0, xval_ok=0, xval_inexact=0,
